@@ -231,6 +231,7 @@ func init() {
 			c19Oracle(f.Text, tags, r)
 		}})
 		c.Scenarios = append(c.Scenarios, Scenario{Name: "discarded-expression-statements", Count: func(string) int { return c19DiscardedCount() }, Run: func(_ string, idx int, r *Result) { c19DiscardedRun(idx, r) }})
+		c.Scenarios = append(c.Scenarios, Scenario{Name: "blocks-ending-in-block-like-expressions", Count: func(string) int { return c19TailCount() }, Run: func(_ string, idx int, r *Result) { c19TailRun(idx, r) }})
 		c.Scenarios = append(c.Scenarios, Scenario{Name: "statement-boundaries", Count: func(string) int { return c19BoundaryCount() }, Run: func(_ string, idx int, r *Result) { c19BoundaryRun(idx, r) }})
 		for _, f := range semanticFamilies {
 			f := f
